@@ -1633,6 +1633,7 @@ class RlWriter:
         if img_path in self.fixed_images:
             return self.fixed_images[img_path]
         self.fixed_images[img_path] = -1
+        fixed_key = img_path  # the cache is keyed by the path as it was passed in (bytes)
         img_path = str(img_path, 'utf-8')
 
         try:
@@ -1702,7 +1703,7 @@ class RlWriter:
         except:
             log.warning("image can not be opened by PIL: %r" % img_path)
             raise
-        self.fixed_images[img_path] = 0
+        self.fixed_images[fixed_key] = 0
         return 0
 
     def set_svg_default_size(self, img_node):
